@@ -109,7 +109,10 @@
 use core::cell::Cell;
 use core::ptr;
 use core::sync::atomic::Ordering::*;
+#[cfg(not(arc_swap_verif))]
 use core::sync::atomic::{AtomicPtr, AtomicUsize};
+#[cfg(arc_swap_verif)]
+use crate::verif::atomic::{AtomicPtr, AtomicUsize};
 
 use super::Debt;
 use crate::RefCnt;
@@ -330,5 +333,30 @@ impl Slots {
             // someone provided the replacement *and* paid the debt and we need just one of them).
             Err(replacement)
         }
+    }
+}
+
+#[cfg(arc_swap_verif)]
+impl Slots {
+    /// (address, current value) of control, slot, active_addr, handover, space_offer, read
+    /// without the hooks.
+    pub(super) fn verif_raw(&self) -> [(usize, usize); 5] {
+        [
+            (&self.control as *const _ as usize, self.control.0.load(Relaxed)),
+            (&self.slot.0 as *const _ as usize, (self.slot.0).0.load(Relaxed)),
+            (&self.active_addr as *const _ as usize, self.active_addr.0.load(Relaxed)),
+            (&self.handover.0 as *const _ as usize, (self.handover.0).0.load(Relaxed)),
+            (&self.space_offer as *const _ as usize, self.space_offer.0.load(Relaxed) as usize),
+        ]
+    }
+}
+
+#[cfg(arc_swap_verif)]
+impl Local {
+    pub(super) fn verif_generation(&self) -> usize {
+        self.generation.get()
+    }
+    pub(super) fn verif_set_generation(&self, gen: usize) {
+        self.generation.set(gen)
     }
 }
